@@ -67,14 +67,12 @@ func init() {
 // ExecAddress 计算量有点大，做一次cache
 // contract address
 func ExecAddress(name string) string {
-	if value, ok := execAddrCache.Get(name); ok {
-		return value.(string)
-	}
+	// 不缓存格式化后的地址: 地址驱动的格式化结果可能依赖当前区块高度(如eth地址的ForkFormatAddressKey),
+	// 公钥计算和公钥到地址的转换各自已有缓存
 	addr, err := GetExecAddress(name, defaultAddressID)
 	if err != nil {
 		panic(fmt.Sprintf("load default driver err, id:%d", defaultAddressID))
 	}
-	execAddrCache.Add(name, addr)
 	return addr
 }
 
